@@ -4,6 +4,10 @@
 * `pat_sem` (pattern string on the current image): the implementation's answer is compared exactly with the
   model's (correspondence) and, when the model says `hyp=1` (documented grammar, well formed, inside the
   fragment of Thm/C11.lean, coherent image interface), with the reference semantics `## spec=`.
+  REGARDLESS of the fragment, when the model says `hypi=1` (documented grammar, well formed, coherent image
+  interface: the hypotheses of the unconditional T2' of Thm/C11Impl.lean) the implementation's answer must equal
+  the second reference semantics `## impl=` (`denoteImpl`: the last alternative continues into what follows the
+  `)`, a trailing `[a-b]` means `[a]`).
 * `pat_ref` (raw buffer): model only — the crate has no public API for raw buffers, the implementation answers
   `bad-op`.  Judged model-vs-specification under `hyp=1` (catches mistakes of the specification / theorem
   side), never a correspondence disagreement.
@@ -20,42 +24,62 @@ def _list(txt):
     return txt.split(",") if txt else []
 
 
-def against_spec(who, ans, spec):
-    """`ans` = 'ok b save=[..]' of `who` against the `spec=` field of an in-hypothesis input: None when it
-    agrees, else a text"""
-    want = spec_field(spec, "spec")
+def against_spec(who, ans, spec, field="spec", what="the documented semantics"):
+    """`ans` = 'ok b save=[..]' of `who` against the `spec=` (`impl=`) field of an in-hypothesis input: None when
+    it agrees, else a text"""
+    want = spec_field(spec, field)
     ms = _SPEC_RE.match(want or "")
     if not ms:
-        return "hyp=1 but the specification gave no answer (spec=%s); %s: %s" % (want, who, ans[:200])
+        return "in hypothesis but the specification gave no answer (%s=%s); %s: %s" % (field, want, who, ans[:200])
     m = _OK_RE.match(ans)
     if not m:
-        return "%s did not answer a well-formed pattern string of the documented fragment: %s (documented: %s)" % (who, ans[:200], want[:200])
+        return "%s did not answer a well-formed pattern string: %s (%s: %s)" % (who, ans[:200], what, want[:200])
     if m.group(1) != ms.group(1):
-        return "%s answered %s, the documented semantics answers %s" % (who, "match" if m.group(1) == "1" else "no match",
-                                                                        ("match with captures [%s]" % ms.group(2)[:200]) if ms.group(1) == "1" else "no match")
+        return "%s answered %s, %s answers %s" % (who, "match" if m.group(1) == "1" else "no match", what,
+                                                  ("match with captures [%s]" % ms.group(2)[:200]) if ms.group(1) == "1" else "no match")
     if ms.group(1) == "1":
         got, exp = _list(m.group(2)), _list(ms.group(2))
         if len(got) != len(exp):
             return "%s returned %d save slots, the specification lists %d" % (who, len(got), len(exp))
         for i, (g, e) in enumerate(zip(got, exp)):
             if e != "_" and e != g:
-                return "%s left %s in save[%d], the documented semantics stores %s (save=[%s], documented [%s])" % (
-                    who, g, i, e, m.group(2)[:200], ms.group(2)[:200])
+                return "%s left %s in save[%d], %s stores %s (save=[%s], specified [%s])" % (
+                    who, g, i, what, e, m.group(2)[:200], ms.group(2)[:200])
+    return None
+
+
+IMPL_WHAT = "the second reference semantics (denoteImpl, Thm/C11Impl.lean)"
+
+
+def against_both(who, ans, spec):
+    """the fragment theorem (hyp=1: `spec=`) and the unconditional one (hypi=1: `impl=`)"""
+    if spec_field(spec, "hyp") == "1":
+        r = against_spec(who, ans, spec)
+        if r:
+            return r
+    if spec_field(spec, "hypi") == "1":
+        r = against_spec(who, ans, spec, "impl", IMPL_WHAT)
+        if r:
+            return "unconditional theorem (frag=%s): %s" % (spec_field(spec, "frag"), r)
+        # on the fragment the two reference semantics are the same (C11_denoteImpl_eq_denote_on_fragment)
+        if spec_field(spec, "frag") == "1" and spec_field(spec, "spec") != spec_field(spec, "impl"):
+            return "the two reference semantics differ on a pattern of the fragment: spec=%s impl=%s" % (
+                spec_field(spec, "spec"), spec_field(spec, "impl"))
     return None
 
 
 class C11(Prop):
     pid = "C11"
     title = "pattern strings mean what the syntax documentation says"
-    thm_modules = ["PeliteModel.Thm.C11", "PeliteModel.Thm.C11Parse", "PeliteModel.Thm.C11Frame"]
-    gens = gen_patsem.SEM_GENS + props_pattern.PARSE_GENS
+    thm_modules = ["PeliteModel.Thm.C11", "PeliteModel.Thm.C11Parse", "PeliteModel.Thm.C11Frame", "PeliteModel.Thm.C11Impl"]
+    gens = gen_patsem.SEM_GENS + props_pattern.PARSE_GENS + gen_patsem.OUTSIDE_GENS
     named_errors = set()     # the statement names no parse error kind: errors agree by class
 
     def judge(self, op, impl, model, spec):
         if op.startswith("pat_ref"):
             # model only: the model's own answer against the reference semantics
-            if spec_field(spec, "hyp") == "1":
-                r = against_spec("the interpreter model", model, spec)
+            if spec_field(spec, "hyp") == "1" or spec_field(spec, "hypi") == "1":
+                r = against_both("the interpreter model", model, spec)
                 if r:
                     return {"kind": "spec", "text": "raw buffer (model vs. specification): " + r}
             elif klass(model) not in ("ok", "err"):
@@ -67,9 +91,7 @@ class C11(Prop):
         if op.startswith("pat_parse"):
             return props_pattern.judge_parse(op, impl, model)
         if op.startswith("pat_sem"):
-            if spec_field(spec, "hyp") != "1":
-                return None
-            return against_spec("the scanner", impl, spec)
+            return against_both("the scanner", impl, spec)
         return None
 
     def nontrivial(self, op, impl):
